@@ -20,7 +20,10 @@ class LoadAfterStorePass(BlockPass):
     """
 
     def find_store_backwards(
-        self, i, ty, stop_on=(ir.FunctionCall, ir.ProcedureCall, ir.Store)
+        self,
+        i,
+        ty,
+        stop_on=(ir.FunctionCall, ir.ProcedureCall, ir.Store, ir.CopyBlob),
     ):
         """Go back from this instruction to beginning"""
         block = i.block
@@ -79,7 +82,13 @@ class LoadAfterStorePass(BlockPass):
             store_prev = self.find_store_backwards(
                 store,
                 store.value.ty,
-                stop_on=(ir.FunctionCall, ir.ProcedureCall, ir.Store, ir.Load),
+                stop_on=(
+                    ir.FunctionCall,
+                    ir.ProcedureCall,
+                    ir.Store,
+                    ir.Load,
+                    ir.CopyBlob,
+                ),
             )
             if store_prev is not None and not store_prev.volatile:
                 store_prev.remove_from_block()
